@@ -74,7 +74,7 @@ func (d *recDB) OpenStorageTrie(addrHash, root common.Hash) (state.Trie, error) 
 func (d *recDB) CopyTrie(t state.Trie) state.Trie {
 	rt, ok := t.(*recTrie)
 	if !ok {
-		vk.Fatalf("recording database: foreign trie %T", t)
+		hfail("recording database: foreign trie %T", t)
 	}
 	// a copy starts a new record (the repository's CopyTrie gives the copy an empty pending-update set)
 	return d.wrap(d.Database.CopyTrie(rt.Trie), rt.t.storage, rt.t.addrHash, rt.t.openRoot)
@@ -202,19 +202,21 @@ func orderCheck(res *caseResult, o *minichain.Chain, isTrie bool, b *types.Block
 	rdb := &recDB{openStateDB(work, isTrie, o.Height()), rec}
 	st, err := state.New(o.LastTxsResult().TrieRoot, rdb)
 	if err != nil {
-		vk.Fatalf("order: open state on the recording database: %v", err)
+		hfail("order: open state on the recording database: %v", err)
 	}
 	blk := minichain.CloneBlock(b)
-	var out = o.App().VerifC05ProcessOn(blk, st, false)
+	// preRun=true: the execution PreRunBlock performs (processBlock without the signature pre-check, which writes no state)
+	var out = o.App().VerifC05ProcessOn(blk, st, true)
 	res.Executions++
 	if !out.Ok {
-		res.viol("order:recorded-run-differs-from-replicas", "%s: the block the replicas accepted fails on the recording state database", mode)
+		res.viol("order:recorded-run-differs-from-replicas", "%s: the block PreRunBlock executed fails on the recording state database", mode)
 		return
 	}
 	if out.Result.StateHash != b.Header.StateHash || out.Result.ReceiptHash != b.Header.ReceiptHash || out.Result.GasUsed != b.Header.GasUsed {
+		// one more execution of the same block on the same state with another result: a divergence by itself; the
+		// permutations below say whether the update order is the cause
 		res.viol("order:recorded-run-differs-from-replicas", "%s: execution on the recording state database gives state %x receipts %x gas %d, the header says %x %x %d", mode,
 			out.Result.StateHash, out.Result.ReceiptHash, out.Result.GasUsed, b.Header.StateHash, b.Header.ReceiptHash, b.Header.GasUsed)
-		return
 	}
 	root, err := st.Commit(false, blk.Height)
 	if err != nil {
@@ -223,8 +225,10 @@ func orderCheck(res *caseResult, o *minichain.Chain, isTrie bool, b *types.Block
 	}
 	rdb.TrieDB().Commit(root, false)
 	// the committed bytes must be the bytes the validator replica wrote
-	if got, want := dumpDB(work, skipKVH), dumpDB(v.c.DB("state"), skipKVH); got != want {
-		res.viol("order:recorded-commit-differs-from-replica-db", "%s: state database after the recorded commit %s, after the validator's CommitBlock %s", mode, got, want)
+	if v.o.accepted {
+		if got, want := dumpDB(work, skipKVH), dumpDB(v.c.DB("state"), skipKVH); got != want {
+			res.viol("order:recorded-commit-differs-from-replica-db", "%s: state database after the recorded commit %s, after the validator's CommitBlock %s", mode, got, want)
+		}
 	}
 	for _, tr := range rec.tries {
 		nops := 0
@@ -271,7 +275,7 @@ func orderCheck(res *caseResult, o *minichain.Chain, isTrie bool, b *types.Block
 		}
 		refM, refD, err := replay(pre, isTrie, o.Height(), tr, segs, -1, nil)
 		if err != nil {
-			vk.Fatalf("order: %s: reference replay of the %s failed: %v", mode, what, err)
+			hfail("order: %s: reference replay of the %s failed: %v", mode, what, err)
 		}
 		mi := 0
 		for _, op := range tr.ops {
